@@ -196,22 +196,67 @@ Definition round_big (m : rounding) (tn d : Z) : res :=
       else if d <? 0 then RVals (VBig (- q)) (VBig r) else RVals (VBig q) (VBig r)
   end.
 
-Definition m_round (m : rounding) (args : list val) : out :=
-  match args with
-  | [n; d] =>
-      match norm_kind n d with
-      | KFix => {| o_res := round_fix m (as_int n) (as_int d); o_args := args |}
-      | KBig =>
-          let r := round_big m (as_int n) (as_int d) in
-          (* round takes |.| of its bignum operands in place (zn.Abs(zn), zd.Abs(zd)) *)
-          let absop v := match v with VBig z => VBig (Z.abs z) | _ => v end in
-          {| o_res := r; o_args := match m, r with Round, RVals _ _ => [absop n; absop d] | _, _ => args end |}
-      | _ => {| o_res := RVal VInexact; o_args := args |}    (* ratio operands: not modelled *)
+(* ratio branch: both operands as big.Rat; the quotient is always a *Bignum, the remainder a *Ratio
+   (a fixnum 0 only where floor / ceiling return it literally) *)
+Definition rnorm (n d : Z) : Z * Z :=          (* d <> 0 *)
+  let g := Z.gcd n d in let s := if d <? 0 then -1 else 1 in (s * (n / g), s * (d / g)).
+Definition rsub_mul (t : Z * Z) (k : Z) (d : Z * Z) : Z * Z :=      (* t - k*d *)
+  rnorm (fst t * snd d - k * fst d * snd t) (snd t * snd d).
+Definition rat_val (q : Z * Z) : val := VRat (fst q) (snd q).
+Definition round_rat (m : rounding) (t d : Z * Z) : res :=
+  if fst d =? 0 then RCond CFault else
+  match m with
+  | Round =>
+      let zn := (Z.abs (fst t), snd t) in let zd := (Z.abs (fst d), snd d) in
+      let bi := Z.quot (fst zn * snd zd) (snd zn * fst zd) in
+      let zr := rsub_mul zn bi zd in
+      let c := Z.compare (2 * fst zr * snd zd) (fst zd * snd zr) in
+      let '(bi, zr) := match c with
+                       | Eq => if Z.odd bi then (bi + 1, rsub_mul zn (bi + 1) zd) else (bi, zr)
+                       | Lt => (bi, zr)
+                       | Gt => (bi + 1, rsub_mul zn (bi + 1) zd)
+                       end in
+      let ns := fst t <? 0 in let ds := fst d <? 0 in
+      let zr := if ns then (- fst zr, snd zr) else zr in
+      let bi := if ns then (if ds then bi else - bi) else (if ds then - bi else bi) in
+      RVals (VBig bi) (rat_val zr)
+  | _ =>
+      let qn := fst t * snd d in let qd := snd t * fst d in        (* t / d = qn / qd *)
+      let bi := Z.quot qn qd in
+      let zr := rsub_mul t bi d in
+      let sg := Z.sgn (fst zr) in let dpos := 0 <? fst d in
+      match m with
+      | Truncate => RVals (VBig bi) (rat_val zr)
+      | Floor =>
+          if sg =? 0 then RVals (VBig bi) (VFix 0)
+          else if sg =? 1 then (if dpos then RVals (VBig bi) (rat_val zr) else RVals (VBig (bi - 1)) (rat_val (rsub_mul t (bi - 1) d)))
+          else (if dpos then RVals (VBig (bi - 1)) (rat_val (rsub_mul t (bi - 1) d)) else RVals (VBig bi) (rat_val zr))
+      | _ (* Ceiling *) =>
+          if sg =? 0 then RVals (VBig bi) (VFix 0)
+          else if sg =? -1 then (if dpos then RVals (VBig bi) (rat_val zr) else RVals (VBig (bi + 1)) (rat_val (rsub_mul t (bi + 1) d)))
+          else (if dpos then RVals (VBig (bi + 1)) (rat_val (rsub_mul t (bi + 1) d)) else RVals (VBig bi) (rat_val zr))
       end
-  | [n] => match n with
-           | VFix z => {| o_res := RVals n (VFix 0); o_args := args |}
-           | _ => {| o_res := RVal VInexact; o_args := args |}
-           end
+  end.
+
+Definition m_round (m : rounding) (args : list val) : out :=
+  let go (n d : val) (orig : list val) : out :=
+    match norm_kind n d with
+    | KFix => {| o_res := round_fix m (as_int n) (as_int d); o_args := orig |}
+    | KBig =>
+        let r := round_big m (as_int n) (as_int d) in
+        (* round takes |.| of its bignum operands in place (zn.Abs(zn), zd.Abs(zd)) *)
+        let absop v := match v with VBig z => VBig (Z.abs z) | _ => v end in
+        {| o_res := r; o_args := match m with Round => map absop orig | _ => orig end |}
+    | KRat =>
+        let r := round_rat m (as_num n, as_den n) (as_num d, as_den d) in
+        (* ... and of its ratio operands *)
+        let absop v := match v with VRat a b => VRat (Z.abs a) b | _ => v end in
+        {| o_res := r; o_args := match m with Round => map absop orig | _ => orig end |}
+    | KInexact => {| o_res := RVal VInexact; o_args := orig |}
+    end in
+  match args with
+  | [n; d] => go n d args
+  | [n] => go n (VFix 1) args
   | _ => {| o_res := RCond CArith; o_args := args |}
   end.
 
